@@ -156,6 +156,10 @@ type C18Case struct {
 	Steps     []int `json:"steps"` // 0 reconcile, 1 GC orphans everything, 2 GC orphans one object, 3 kubelet, 4 reconcile with a fault
 	FaultAt   int   `json:"fault_at"`
 	Parallel  bool  `json:"parallel"`
+	// Collision: the built-in set's status.collisionCount at migration time (its revisions were recorded at 0)
+	Collision int32 `json:"collision"`
+	// DecimalNames: the revisions carry the hash label / name style of old releases (plain decimal)
+	DecimalNames bool `json:"decimal_names"`
 }
 
 func (c C18Case) Summary() interface{} { return c }
@@ -182,6 +186,8 @@ func genC18(rt *rapid.T) C18Case {
 		c.Steps = append(c.Steps, rapid.SampledFrom([]int{0, 0, 0, 1, 2, 2, 3, 4}).Draw(rt, "step"))
 	}
 	c.FaultAt = rapid.IntRange(1, 10).Draw(rt, "faultAt")
+	c.Collision = rapid.SampledFrom([]int32{0, 0, 1, 2}).Draw(rt, "collision")
+	c.DecimalNames = rapid.IntRange(0, 3).Draw(rt, "decimalNames") == 0
 	return c
 }
 
@@ -233,6 +239,12 @@ func runC18(rep Rep, c C18Case) {
 			rep.Exclude("reference encoder failed")
 		}
 		hash := builtinRevisionHash(data, &zero)
+		if c.DecimalNames {
+			hf := fnv.New32()
+			hf.Write(data)
+			hf.Write([]byte("0"))
+			hash = fmt.Sprint(hf.Sum32())
+		}
 		revName[i] = "web-" + hash
 		lbl := map[string]string{"app": "web", "controller.kubernetes.io/hash": hash}
 		cl.Put(&appsv1.ControllerRevision{ObjectMeta: metav1.ObjectMeta{Name: revName[i], Namespace: NS, Labels: lbl, OwnerReferences: owner},
@@ -250,7 +262,7 @@ func runC18(rep Rep, c C18Case) {
 		curIdx = n - 1
 	}
 	st := stored.DeepCopy()
-	st.Status = appsv1.StatefulSetStatus{ObservedGeneration: st.Generation, Replicas: c.Replicas, ReadyReplicas: c.Replicas, CurrentRevision: revName[curIdx], UpdateRevision: updateRev, CollisionCount: &zero}
+	st.Status = appsv1.StatefulSetStatus{ObservedGeneration: st.Generation, Replicas: c.Replicas, ReadyReplicas: c.Replicas, CurrentRevision: revName[curIdx], UpdateRevision: updateRev, CollisionCount: &c.Collision}
 	for _, pr := range c.PodRevs {
 		if pr == curIdx {
 			st.Status.CurrentReplicas++
@@ -419,6 +431,9 @@ func runC18(rep Rep, c C18Case) {
 	}
 	if c.Grace > 1<<53 {
 		rep.Label("int64-above-2^53")
+	}
+	if c.Collision > 0 || c.DecimalNames {
+		rep.Label("hash-label-differs-from-hash-at-current-collision-count")
 	}
 }
 
